@@ -159,13 +159,17 @@ class Lex:
         self.kind = kind
 
 
-def derive(rnd, rules, e, depth=6, out=None):
-    """random derivation of expression e; returns list of Lex"""
+def derive(rnd, rules, e, depth=6, out=None, marks=None):
+    """random derivation of expression e; returns list of Lex.  marks (optional list) receives the
+    lexeme index at which each cut was passed"""
     rmap = dict(rules) if not isinstance(rules, dict) else rules
     if out is None:
         out = []
     k = e[0]
-    if k == 'tok':
+    if k == 'cut':
+        if marks is not None:
+            marks.append(len(out))
+    elif k == 'tok':
         out.append(Lex(e[1]))
     elif k == 'pat':
         ex = next((xs for p, xs in PATS if p == e[1]), None)
@@ -176,33 +180,33 @@ def derive(rnd, rules, e, depth=6, out=None):
         out.append(Lex(rnd.choice(['a', 'x', '1', ',']), True, 'dot'))
     elif k == 'seq':
         for x in e[1]:
-            derive(rnd, rmap, x, depth, out)
+            derive(rnd, rmap, x, depth, out, marks)
     elif k == 'alt':
         derive(rnd, rmap, rnd.choice(e[1]), depth, out)
     elif k in ('grp', 'skipgrp', 'ovr', 'ovrl'):
-        derive(rnd, rmap, e[1], depth, out)
+        derive(rnd, rmap, e[1], depth, out, marks)
     elif k in ('named', 'namedl'):
-        derive(rnd, rmap, e[2], depth, out)
+        derive(rnd, rmap, e[2], depth, out, marks)
     elif k == 'opt':
         if rnd.random() < 0.6:
-            derive(rnd, rmap, e[1], depth, out)
+            derive(rnd, rmap, e[1], depth, out, marks)
     elif k in ('star', 'plus'):
         n = rnd.randint(1 if k == 'plus' else 0, 3)
         for _ in range(n):
-            derive(rnd, rmap, e[1], depth - 1, out)
+            derive(rnd, rmap, e[1], depth - 1, out, marks)
     elif k == 'join':
         n = rnd.randint(1 if e[3] else 0, 3)
         for i in range(n):
             if i:
-                derive(rnd, rmap, e[1], depth - 1, out)
-            derive(rnd, rmap, e[2], depth - 1, out)
+                derive(rnd, rmap, e[1], depth - 1, out, marks)
+            derive(rnd, rmap, e[2], depth - 1, out, marks)
     elif k == 'call' or k == 'inc':
         if depth > 0 and e[1] in rmap:
-            derive(rnd, rmap, rmap[e[1]], depth - 1, out)
+            derive(rnd, rmap, rmap[e[1]], depth - 1, out, marks)
     elif k == 'skipto':
         for _ in range(rnd.randint(0, 2)):
             out.append(Lex(rnd.choice(SOUP).strip() or 'b'))
-        derive(rnd, rmap, e[1], depth, out)
+        derive(rnd, rmap, e[1], depth, out, marks)
     return out
 
 
@@ -291,3 +295,50 @@ def ctx_hist(rules):
     for _, x in rules:
         rec(x, 'rule')
     return keys
+
+
+# ---------------------------------------------------------------- cuts
+def cut_sites(e, path=(), under=()):
+    """positions where a cut may be inserted: (path to a seq node, index) — not under a negative
+    lookahead or skip-to (there a cut is not monotone) and not under a positive lookahead"""
+    k = e[0]
+    if k == 'seq' and not set(under) & {'not', 'skipto', 'and'}:
+        for i in range(1, len(e[1]) + 1):
+            yield path, i
+    for j, c in enumerate(children(e)):
+        yield from cut_sites(c, path + (j,), under + (k,))
+
+
+def insert_at(e, path, fn):
+    from .gast import replace_children
+    if not path:
+        return fn(e)
+    cs = children(e)
+    cs[path[0]] = insert_at(cs[path[0]], path[1:], fn)
+    return replace_children(e, cs)
+
+
+def insert_cuts(rnd, rules, maxcuts=3):
+    """returns new rules with 1..maxcuts cuts inserted (or None if there is no site)"""
+    rules = list(rules)
+    n = rnd.randint(1, maxcuts)
+    done = 0
+    for _ in range(n):
+        sites = [(ri, p, i) for ri, (_, x) in enumerate(rules) for p, i in cut_sites(x)]
+        if not sites:
+            break
+        ri, p, i = rnd.choice(sites)
+        name, x = rules[ri]
+        rules[ri] = (name, insert_at(x, p, lambda s, i=i: ('seq', s[1][:i] + (('cut',),) + s[1][i:])))
+        done += 1
+    return rules if done else None
+
+
+def strip_cuts(e):
+    from .gast import replace_children
+    if e[0] == 'seq':
+        items = tuple(strip_cuts(x) for x in e[1] if x[0] != 'cut')
+        if not items:
+            return ('void',)
+        return items[0] if len(items) == 1 else ('seq', items)
+    return replace_children(e, [strip_cuts(c) for c in children(e)])
